@@ -31,6 +31,24 @@ fn file_of(v: &Value) -> FileDescriptorProto {
         syntax: Some("proto3".into()), ..Default::default() }
 }
 
+macro_rules! parse_item { ($MResp:ident, $files:expr, $m:expr) => {
+    match $m {
+        Err(s) => json!({"k":"status","code":s.code() as i32}),
+        Ok(None) => json!({"k":"empty"}),
+        Ok(Some(m)) => match m.message_response {
+            Some($MResp::FileDescriptorResponse(f)) => {
+                let fs: Vec<Value> = f.file_descriptor_proto.iter().map(|b| match FileDescriptorProto::decode(&b[..]) {
+                    Ok(p) => { let same = $files.iter().any(|r: &FileDescriptorProto| *r == p); json!({"nb":str_json(p.name.as_deref().unwrap_or("")),"decodes":true,"same":same}) }
+                    Err(_) => json!({"nb":[],"decodes":false,"same":false}) }).collect();
+                json!({"k":"files","files":fs})
+            }
+            Some($MResp::ListServicesResponse(l)) => json!({"k":"services","names":l.service.iter().map(|s| str_json(&s.name)).collect::<Vec<_>>()}),
+            Some($MResp::ErrorResponse(e)) => json!({"k":"status","code":e.error_code}),
+            _ => json!({"k":"other"}),
+        }
+    }
+}; }
+
 macro_rules! query_impl { ($ver:ident, $client:path, $mkreq:expr, $mreq:path, $mresp:path, $svc:expr, $q:expr, $files:expr) => {{
     use $mreq as MReq; use $mresp as MResp;
     let mut cl = <$client>::new($svc.clone());
@@ -41,23 +59,71 @@ macro_rules! query_impl { ($ver:ident, $client:path, $mkreq:expr, $mreq:path, $m
     let res = block_on(async {
         match cl.server_reflection_info(tokio_stream::iter(vec![req])).await {
             Err(s) => json!({"k":"status","code":s.code() as i32}),
-            Ok(r) => { let mut st = r.into_inner(); match st.message().await {
-                Err(s) => json!({"k":"status","code":s.code() as i32}),
-                Ok(None) => json!({"k":"empty"}),
-                Ok(Some(m)) => match m.message_response {
-                    Some(MResp::FileDescriptorResponse(f)) => {
-                        let fs: Vec<Value> = f.file_descriptor_proto.iter().map(|b| match FileDescriptorProto::decode(&b[..]) {
-                            Ok(p) => { let same = $files.iter().any(|r: &FileDescriptorProto| *r == p); json!({"nb":str_json(p.name.as_deref().unwrap_or("")),"decodes":true,"same":same}) }
-                            Err(_) => json!({"nb":[],"decodes":false,"same":false}) }).collect();
-                        json!({"k":"files","files":fs})
-                    }
-                    Some(MResp::ListServicesResponse(l)) => json!({"k":"services","names":l.service.iter().map(|s| str_json(&s.name)).collect::<Vec<_>>()}),
-                    Some(MResp::ErrorResponse(e)) => json!({"k":"status","code":e.error_code}),
-                    _ => json!({"k":"other"}),
-                } } }
+            Ok(r) => { let mut st = r.into_inner(); let m = st.message().await; parse_item!(MResp, $files, m) }
         }
     });
     res
+}}; }
+
+/// One ServerReflectionInfo stream driven step by step (C19, stream dimension): steps "S" write the next query (no yield),
+/// "R"/"E" read one item, "C" close the request stream, "Y" yield once.  Every read is logged with the echoed original request.
+macro_rules! session_impl { ($vname:expr, $client:path, $mkreq:expr, $mreq:path, $mresp:path, $svc:expr, $sess:expr, $files:expr, $rec:expr) => {{
+    use $mreq as MReq; use $mresp as MResp;
+    let mut cl = <$client>::new($svc.clone());
+    let qs: Vec<Value> = $sess["queries"].as_array().cloned().unwrap_or_default();
+    let steps: Vec<String> = $sess["script"].as_array().cloned().unwrap_or_default().iter().map(|x| x.as_str().unwrap_or("").to_string()).collect();
+    $rec.ev(json!({"e":"sess_start","ver":$vname}));
+    let rec2 = $rec.clone();
+    block_on_paused(async move {
+        let (tx, rx) = tokio::sync::mpsc::unbounded_channel();
+        let mut tx = Some(tx);
+        let mut next = 0usize;
+        let mut pre = 0usize;
+        // the call itself only returns once the handler has answered the headers; queries written before that are "S" steps at the front
+        while pre < steps.len() && steps[pre] == "S" {
+            let q = &qs[next]; next += 1;
+            let arg = q["arg"].as_str().unwrap_or("").to_string();
+            let mreq = match q["kind"].as_str().unwrap_or("") { "symbol" => MReq::FileContainingSymbol(arg), "file" => MReq::FileByFilename(arg), _ => MReq::ListServices(String::new()) };
+            let _ = tx.as_ref().unwrap().send(($mkreq)(mreq));
+            rec2.ev(json!({"e":"sess","op":"send","q":q}));
+            pre += 1;
+        }
+        let mut st = match tokio::time::timeout(std::time::Duration::from_secs(20), cl.server_reflection_info(tokio_stream::wrappers::UnboundedReceiverStream::new(rx))).await {
+            Err(_) => { rec2.ev(json!({"e":"sess","op":"open","res":{"k":"hang"}})); return; }
+            Ok(Err(s)) => { rec2.ev(json!({"e":"sess","op":"open","res":{"k":"status","code":s.code() as i32}})); return; }
+            Ok(Ok(r)) => r.into_inner(),
+        };
+        for step in &steps[pre..] {
+            match step.as_str() {
+                "S" => {
+                    let q = &qs[next]; next += 1;
+                    let arg = q["arg"].as_str().unwrap_or("").to_string();
+                    let mreq = match q["kind"].as_str().unwrap_or("") { "symbol" => MReq::FileContainingSymbol(arg), "file" => MReq::FileByFilename(arg), _ => MReq::ListServices(String::new()) };
+                    if let Some(t) = tx.as_ref() { let _ = t.send(($mkreq)(mreq)); }
+                    rec2.ev(json!({"e":"sess","op":"send","q":q}));
+                }
+                "C" => { tx = None; rec2.ev(json!({"e":"sess","op":"close"})); }
+                "Y" => { tokio::task::yield_now().await; }
+                _ => {
+                    let m = tokio::time::timeout(std::time::Duration::from_secs(20), st.message()).await;
+                    let (res, echo) = match m {
+                        Err(_) => (json!({"k":"hang"}), json!({"kind":"none","argb":[]})),
+                        Ok(m) => {
+                            let echo = match &m { Ok(Some(x)) => match x.original_request.as_ref().and_then(|o| o.message_request.clone()) {
+                                Some(MReq::FileContainingSymbol(a)) => json!({"kind":"symbol","argb":str_json(&a)}),
+                                Some(MReq::FileByFilename(a)) => json!({"kind":"file","argb":str_json(&a)}),
+                                Some(MReq::ListServices(_)) => json!({"kind":"list","argb":[]}),
+                                _ => json!({"kind":"none","argb":[]}) }, _ => json!({"kind":"none","argb":[]}) };
+                            (parse_item!(MResp, $files, m), echo)
+                        }
+                    };
+                    let hang = res["k"] == "hang";
+                    rec2.ev(json!({"e":"sess","op":"recv","want":step,"res":res,"echo":echo}));
+                    if hang { return; }
+                }
+            }
+        }
+    });
 }}; }
 
 pub fn run(stim: &Value, rec: &Rec) {
@@ -82,5 +148,11 @@ pub fn run(stim: &Value, rec: &Rec) {
         let r1 = query_impl!(v1, p1::server_reflection_client::ServerReflectionClient<_>, |m| p1::ServerReflectionRequest { host: "h".into(), message_request: Some(m) }, p1::server_reflection_request::MessageRequest, p1::server_reflection_response::MessageResponse, v1, q, files);
         let ra = query_impl!(v1alpha, pa::server_reflection_client::ServerReflectionClient<_>, |m| pa::ServerReflectionRequest { host: "h".into(), message_request: Some(m) }, pa::server_reflection_request::MessageRequest, pa::server_reflection_response::MessageResponse, v1a, q, files);
         rec.ev(json!({"e":"answer","i":i as u64,"q":q,"v1":r1,"v1alpha":ra}));
+    }
+    for sess in stim["sessions"].as_array().cloned().unwrap_or_default().iter() {
+        use tonic_reflection::pb::{v1 as p1, v1alpha as pa};
+        let f1 = files.clone(); let f2 = files.clone();
+        session_impl!("v1", p1::server_reflection_client::ServerReflectionClient<_>, |m| p1::ServerReflectionRequest { host: "h".into(), message_request: Some(m) }, p1::server_reflection_request::MessageRequest, p1::server_reflection_response::MessageResponse, v1, sess, f1, rec);
+        session_impl!("v1alpha", pa::server_reflection_client::ServerReflectionClient<_>, |m| pa::ServerReflectionRequest { host: "h".into(), message_request: Some(m) }, pa::server_reflection_request::MessageRequest, pa::server_reflection_response::MessageResponse, v1a, sess, f2, rec);
     }
 }
